@@ -173,11 +173,11 @@ fn serve(l: TcpListener, table: Vec<(String, RespModel)>, seg: String, keep_open
                 log.lock().unwrap().push(format!("  (answered 403: the request carried cookies {:?}, the first request of the chain {:?})", pairs, session.lock().unwrap()));
             }
             let resp = if no_session {
-                Some(RespModel { version: "HTTP/1.1".into(), status: 403, headers: vec![("X-No-Session".into(), "1".into())], body: b"no session".to_vec(), framing: "cl".into(), chunks: vec![], hex_upper: false, name_style: 0, sep_style: 0 })
+                Some(RespModel { version: "HTTP/1.1".into(), status: 403, headers: vec![("X-No-Session".into(), "1".into())], body: b"no session".to_vec(), framing: "cl".into(), chunks: vec![], hex_upper: false, name_style: 0, sep_style: 0, wire_style: 0 })
             } else {
                 None
             };
-            let resp = resp.or_else(|| table.iter().find(|(p, _)| *p == path).map(|(_, r)| r.clone())).unwrap_or(RespModel { version: "HTTP/1.1".into(), status: 404, headers: vec![("X-Not-In-Table".into(), "1".into())], body: b"nf".to_vec(), framing: "cl".into(), chunks: vec![], hex_upper: false, name_style: 0, sep_style: 0 });
+            let resp = resp.or_else(|| table.iter().find(|(p, _)| *p == path).map(|(_, r)| r.clone())).unwrap_or(RespModel { version: "HTTP/1.1".into(), status: 404, headers: vec![("X-Not-In-Table".into(), "1".into())], body: b"nf".to_vec(), framing: "cl".into(), chunks: vec![], hex_upper: false, name_style: 0, sep_style: 0, wire_style: 0 });
             let wire = resp.render();
             write_all(&mut s, &wire);
             let self_delim = no_body_status(resp.status) || resp.effective_framing() == "cl" || resp.effective_framing() == "chunked";
@@ -558,7 +558,7 @@ impl Prop for C07 {
             }
             let comp = composition(n, k - base);
             let body: Vec<u8> = (0..n).map(|i| b'a' + i as u8).collect();
-            let resp = RespModel { version: "HTTP/1.1".into(), status: 200, headers: vec![("Content-Type".into(), "text/plain".into())], body, framing: "chunked".into(), chunks: comp, hex_upper: idx % 2 == 1, name_style: 0, sep_style: 0 };
+            let resp = RespModel { version: "HTTP/1.1".into(), status: 200, headers: vec![("Content-Type".into(), "text/plain".into())], body, framing: "chunked".into(), chunks: comp, hex_upper: idx % 2 == 1, name_style: 0, sep_style: 0, wire_style: 0 };
             return serde_json::to_value(Scn { sim, part: "client".into(), resp, cookies: vec![], method: "GET".into(), seg: ["", "onebyte", "random:3"][rng.usize_below(3)].into(), keep_open: rng.chance(1, 2), chain: vec![], follow: false, client_cookies: vec![], plan_seed: 0 }).unwrap();
         }
         let r = rng.below(100);
